@@ -323,6 +323,7 @@ Definition run_case (BUF : nat) (a : arg) : list bytes :=
   | AL [AN 5; AN id; AB bs; AN m] => [run_one id bs (Some m)]
   | AL [AN 6; AN id; AN L; AB stream; AL ops] => run_conn BUF id L stream ops
   | AL [AN 7; AN id; AN v; AN s; AL ops] => [run_resp id v s ops]
+  | AL [AN 7; AN id; AN v; AN s; AL ops; AL _] => [run_resp id v s ops]
   | AL [AN 8; AN id; AB server; AB prefix; AL routes; AL reqs] => run_router id server prefix routes reqs
   | _ => [B"? unknown case"]
   end.
